@@ -246,6 +246,21 @@ def gen_service(rng, sid):
     same_ty = rng.chance(1, 3)
     while len(svc.methods) < nmeth:
         raw, name = gen_method_name(rng)
+        # a sibling whose name differs from an earlier method's only by an underscore (`timeout` / `time_out`):
+        # distinct methods and distinct generated variants, but equal once case and underscores are ignored
+        plain = [m.name for m in svc.methods if not m.raw and len(m.name.strip("_")) >= 2 and m.name not in KEYWORDS]
+        if plain and rng.chance(1, 4):
+            base = rng.pick(plain)
+            core = base.strip("_")
+            if "_" in core:
+                k = core.index("_")
+                var = core[:k] + core[k:].lstrip("_")
+            else:
+                k = 1 + rng.below(len(core) - 1)
+                var = core[:k] + "_" + core[k:]
+            raw, name = False, var
+            if name in KEYWORDS:
+                continue
         camel = snake_to_camel(name)
         if (not camel or camel[0].isdigit() or camel == "Self" or camel in camels
                 or name in ("new", "serve")):
@@ -428,7 +443,7 @@ fn log(s: String) {
     LOG.lock().unwrap().push(s);
 }
 fn base() -> Instant {
-    *BASE.get_or_init(Instant::now)
+    *BASE.get_or_init(tarpc::verif_hooks::now)
 }
 /// `Debug` without spaces: one token of the line protocol.
 fn dbg<T: Debug>(t: &T) -> String {
@@ -507,7 +522,16 @@ def emit_pos_module(s):
         out.append(f"        log({json.dumps(m.line())}.to_string());")
         out.append(f"        log(\"obs declared {i}\".to_string());")
     out += ['        log("op build".to_string());', '        log("obs accepted".to_string());',
-            "        let (ct, st) = tarpc::transport::channel::unbounded();",
+            ] + (
+            # every other service whose request/response types derive serde is reached through the shipped JSON
+            # transport over an in-memory byte pipe (same observations: the clock is paused, transit takes no time)
+            ["        let (a, b) = tokio::io::duplex(1 << 16);",
+             "        let ct = tarpc::serde_transport::new(tokio_util::codec::Framed::new(a, "
+             "tokio_util::codec::LengthDelimitedCodec::new()), tokio_serde::formats::Json::default());",
+             "        let st = tarpc::serde_transport::new(tokio_util::codec::Framed::new(b, "
+             "tokio_util::codec::LengthDelimitedCodec::new()), tokio_serde::formats::Json::default());"]
+            if (s.derive % len(DERIVES)) in (0, 3, 6) and int(s.id) % 2 == 1 else
+            ["        let (ct, st) = tarpc::transport::channel::unbounded();"]) + [
             "        tokio::spawn(BaseChannel::with_defaults(st).execute(Impl.serve())"
             ".for_each(|f| async move { tokio::spawn(f); }));",
             f"        let chan = tarpc::client::new(tarpc::client::Config::default(), ct).spawn();",
@@ -547,9 +571,9 @@ def emit_pos(svcs):
     out = [PRELUDE]
     for s in svcs:
         out += emit_pos_module(s)
-    out += ["fn main() {", "    base();",
-            "    let rt = tokio::runtime::Builder::new_current_thread().enable_all().build().unwrap();",
-            "    rt.block_on(async {"]
+    out += ["fn main() {",
+            "    let rt = tokio::runtime::Builder::new_current_thread().enable_all().start_paused(true).build().unwrap();",
+            "    rt.block_on(async {", "        base();"]
     out += [f"        s{s.id}::run().await;" for s in svcs]
     out += ["    });", "    let log = LOG.lock().unwrap();", "    for l in log.iter() {", '        println!("{l}");',
             "    }", "}", ""]
@@ -573,8 +597,10 @@ publish = false
 [workspace]
 
 [dependencies]
-tarpc = { path = "/repo/tarpc", features = ["full"] }
-tokio = { version = "1", features = ["rt", "macros", "time"] }
+tarpc = { path = "/repo/tarpc", features = ["full", "verif-hooks"] }
+tokio = { version = "1", features = ["rt", "macros", "time", "io-util", "test-util"] }
+tokio-util = { version = "0.7.3", features = ["codec"] }
+tokio-serde = { version = "0.9", features = ["json"] }
 futures = "0.3"
 serde = { version = "1.0", features = ["derive"] }
 
